@@ -105,8 +105,8 @@ Section S.
     unfold gstep. destruct (sstep (fst x) o). reflexivity.
   Qed.
 
-  Lemma admitted_app a b : admitted_n (a ++ b) = admitted_n a + admitted_n b.
-  Proof. unfold admitted_n. rewrite filter_app, app_length. lia. Qed.
+  Lemma let_in_app a b : let_in_n (a ++ b) = let_in_n a + let_in_n b.
+  Proof. unfold let_in_n. rewrite filter_app, app_length. lia. Qed.
   Lemma done_app a b : done_n (a ++ b) = done_n a + done_n b.
   Proof. unfold done_n. rewrite filter_app, app_length. lia. Qed.
 
@@ -119,7 +119,7 @@ Section S.
     Definition R (x : (shed * Z) * ghost) : Prop :=
       let s := fst (fst x) in let now := snd (fst x) in let g := snd x in
       (otime s = 0 \/ exists a, In (otime s, EAllow true a) (g_tr g)) /\
-      flying s = admitted_n (g_tr g) - done_n (g_tr g) /\
+      flying s = let_in_n (g_tr g) - done_n (g_tr g) /\
       Inv t0 bd n (passW s) now (g_pl g) /\ Inv t0 bd n (rtW s) now (g_rl g) /\
       ignore_current (passW s) = true /\ ignore_current (rtW s) = true /\
       windows s = second / bd.
@@ -136,26 +136,26 @@ Section S.
       destruct o as [over|start| |dt]; cbn [sstep Model.sstep].
       - destruct (allow s now over) as [a s'] eqn:E. cbn [fst snd g_tr g_pl g_rl ev_of].
         apply allow_spec in E as (E1 & E2 & E3 & E4 & E5 & E6 & E7 & _).
-        rewrite E3, E4, E5, E7, E1, admitted_app, done_app.
+        rewrite E3, E4, E5, E7, E1, let_in_app, done_app.
         split; [|split; [|split; [|split; [|split; [|split]]]]]; try assumption.
         + destruct over.
           * right. exists a. apply in_or_app. right. left. reflexivity.
           * apply tr_keep with (s := s). assumption.
-        + unfold admitted_n at 2, done_n at 2. destruct a; simpl; lia.
+        + unfold let_in_n at 2, done_n at 2. destruct a; simpl; lia.
       - cbn [fst snd g_tr g_pl g_rl ev_of]. unfold Model.pass, done_flying.
         cbn [flying avg passW rtW windows thr otime dropped set_wins set_flying].
-        rewrite admitted_app, done_app, !add_ignore.
+        rewrite let_in_app, done_app, !add_ignore.
         split; [|split; [|split; [|split; [|split; [|split]]]]]; try assumption.
         + apply tr_keep with (s := s). assumption.
-        + unfold admitted_n at 2, done_n at 2. simpl. lia.
+        + unfold let_in_n at 2, done_n at 2. simpl. lia.
         + apply Inv_add; assumption.
         + apply Inv_add; assumption.
       - cbn [fst snd g_tr g_pl g_rl ev_of]. unfold Model.fail, done_flying.
         cbn [flying avg passW rtW windows thr otime dropped set_wins set_flying].
-        rewrite admitted_app, done_app.
+        rewrite let_in_app, done_app.
         split; [|split; [|split; [|split; [|split; [|split]]]]]; try assumption.
         + apply tr_keep with (s := s). assumption.
-        + unfold admitted_n at 2, done_n at 2. simpl. lia.
+        + unfold let_in_n at 2, done_n at 2. simpl. lia.
       - cbn [fst snd g_tr g_pl g_rl ev_of]. rewrite app_nil_r.
         split; [|split; [|split; [|split; [|split; [|split]]]]]; try assumption; apply Inv_advance; assumption.
     Qed.
@@ -279,11 +279,11 @@ Section S.
       destruct reach_R as (_ & _ & _ & _ & _ & _ & Hwn). rewrite Hwn in H. exact H.
     Qed.
 
-    Lemma inflight_conservation : flying s = admitted_n tr - done_n tr.
+    Lemma inflight_conservation : flying s = let_in_n tr - done_n tr.
     Proof. destruct reach_R as (_ & H & _). exact H. Qed.
 
     Lemma inflight_zero :
-      (done_n tr <= admitted_n tr -> 0 <= flying s) /\ (done_n tr = admitted_n tr -> flying s = 0).
+      (done_n tr <= let_in_n tr -> 0 <= flying s) /\ (done_n tr = let_in_n tr -> flying s = 0).
     Proof. rewrite inflight_conservation. lia. Qed.
   End Reach.
 
